@@ -108,7 +108,22 @@ def trunc_rule(ctx, rule, only=None):
             truncs = [t for t in f.calls() if t.callee.endswith('Vec::<T, A>::truncate')
                       and paths.mentions_call(t.arg_term(0), c.bb) and is_dimensions(t.arg_term(1))]
             exits = [b for b in f.return_blocks()]
-            good = bool(truncs) and paths.must_pass(f, c.target, exits, [t.bb for t in truncs])
+            # `if v.len() > dims { v.truncate(dims) }`: skipping the call when the vector is already short enough is the same
+            through = [t.bb for t in truncs]
+            for t in truncs:
+                for s0, x0, e in paths.controlling_conds(f, t.bb, transitive=False):
+                    if e[0] != 'bool':
+                        continue
+                    c0 = strip(e[1])
+                    if c0[0] == 'binop' and c0[1] in ('Gt', 'Ge', 'Lt', 'Le', 'Ne'):
+                        a, b2 = strip(c0[2]), strip(c0[3])
+                        len_side, dim_side = (a, b2) if (a[0] == 'call' and a[1].endswith('::len')) else (b2, a)
+                        if len_side[0] == 'call' and len_side[1].endswith('::len') and paths.mentions_call(len_side, c.bb) and is_dimensions(dim_side):
+                            longer = (c0[1] in ('Gt', 'Ge', 'Ne') and len_side is a) or (c0[1] in ('Lt', 'Le', 'Ne') and len_side is b2)
+                            if longer and e[2]:
+                                # the other edge of this test means "not longer than the declared dimension"
+                                through += [y for y in f.succ(s0) if y != x0]
+            good = bool(truncs) and paths.must_pass(f, c.target, exits, through)
             # error exits between to_vec and truncate do not count
             ctx.check(good, rule, key, c.loc(), 'truncated to the declared dimension before use',
                       'the vector decoded by to_vec() in `%s` is used at the codec\'s padded length (not truncated to the declared dimension): quantised vectors come back as multiples of 64 components' % f.path)
